@@ -144,6 +144,11 @@ func genPtrDump(r *Rng) []GSpec {
 	for gi := range gs {
 		for fi := range gs[gi].Frames {
 			fix(gs[gi].Frames[fi].Args)
+			if r.Chance(1, 10) && !gs[gi].Frames[fi].Inlined {
+				// a recurring pointer at the deepest nesting level
+				f := &gs[gi].Frames[fi]
+				f.Args = append(f.Args, deepArg(ArgSpec{V: pool[r.Intn(npool)]}, 4+r.Intn(2)))
+			}
 		}
 	}
 	return gs
